@@ -130,9 +130,6 @@ def run(mod, tier, seed):
     fp_changed = core.fingerprint_changes(ex)
     relevant_fp = [f for f in fp_changed if f in getattr(mod, "FILES", [])]
     eff_tier = tier
-    if tier == "quick" and relevant_fp and os.environ.get("VERIF_NO_ESCALATE") != "1":
-        eff_tier = "thorough"        # a changed source file gets the deeper run (not an alarm by itself)
-
     cases, ev, meta, ncorpus = explore(mod, eff_tier, seed)
     violations, known, corr_only = classify(mod, cases, ev, findings)
     for e in ev["errors"]:
@@ -143,8 +140,9 @@ def run(mod, tier, seed):
                        "first_differing_case": mod.describe(cases[i], ev["obs"][i]), "count": len(corr_only)})
 
     escalated = False
-    if broken and not violations and eff_tier == "quick" and os.environ.get("VERIF_NO_ESCALATE") != "1":
-        # search deeper for a concrete failing input
+    # a broken obligation, or a changed source file of this property (not an alarm by itself), gets the
+    # deeper run when the quick exploration found nothing
+    if (broken or relevant_fp) and not violations and eff_tier == "quick" and os.environ.get("VERIF_NO_ESCALATE") != "1":
         escalated = True
         cases2, ev2, meta2, _ = explore(mod, "thorough", seed, tag="x")
         v2, k2, c2 = classify(mod, cases2, ev2, findings)
